@@ -8,6 +8,7 @@ package smtp
 import (
 	"encoding/base64"
 	"fmt"
+	"go/ast"
 	"net"
 	"net/textproto"
 	"strings"
@@ -329,4 +330,51 @@ func TestVerifC14Gate(t *testing.T) {
 			out.Stat(fmt.Sprintf("gate.cfg.required=%v.login=%v", required, login))
 		}
 	}
+}
+
+// TestVerifC14GateSkel re-derives the shape of the gate from session.go of the current tree.
+func TestVerifC14GateSkel(t *testing.T) {
+	out := vh.Open("c14_gateskel")
+	defer out.Close()
+	if rep := vh.Replay(); rep != nil {
+		found := false
+		for _, l := range rep {
+			found = found || strings.HasPrefix(l, "C14 skel ")
+		}
+		if !found {
+			return
+		}
+	}
+	src, err := vauth.ParseSrc("session.go")
+	if err != nil {
+		t.Fatal(err)
+	}
+	gate := "cannot derive: Session.Mail does not start with an if statement"
+	if fd := src.Func("Session", "Mail"); fd != nil && len(fd.Body.List) > 0 {
+		if ifs, ok := fd.Body.List[0].(*ast.IfStmt); ok && ifs.Init == nil && ifs.Else == nil {
+			gate = "if " + src.Render(ifs.Cond)
+			for _, st := range ifs.Body.List {
+				if rs, ok := st.(*ast.ReturnStmt); ok && len(rs.Results) == 1 {
+					gate += " return " + src.Render(rs.Results[0])
+				} else {
+					gate += " " + src.Render(st)
+				}
+			}
+		}
+	}
+	out.Corr("C14 skel mail-gate", gate)
+	sa := "cannot derive: Session.Auth has no CreateSASL callback"
+	if fd := src.Func("Session", "Auth"); fd != nil {
+		if lit := src.FuncLitArg(fd.Body, "s.endp.saslAuth.CreateSASL"); lit != nil {
+			var as []string
+			for _, st := range lit.Body.List {
+				if a, ok := st.(*ast.AssignStmt); ok && strings.Contains(src.Render(a), "AuthUser") {
+					as = append(as, src.Render(a))
+				}
+			}
+			sa = strings.Join(as, " ")
+		}
+	}
+	out.Corr("C14 skel session-auth", sa)
+	out.Stat("skel.fact")
 }
